@@ -18,6 +18,7 @@ from .lib import _tail_values
 
 EXPLANATION = "Who-may-construct and field provenance for ModuleTextSource (T3/T4), arm table and literal bytes of try_get_original_bytes (T8/T14), inventory of unsafe blocks and transmutes in graph.rs (cast inspection), provenance of the charset argument (T4)."
 NOT_DECIDED = "correctness of decoding / BOM stripping inside deno_media_type"
+CONFIGS = ["default", "nofastcheck"]  # thorough tier also analyses the build without fast_check / symbols
 ASSUMPTIONS = ["Arc<str> and Arc<[u8]> share layout (std guarantee used by the existing code)", "deno_media_type::encoding decodes correctly and reports the decode kind truthfully"]
 
 
@@ -108,6 +109,20 @@ def run(F, R, tier):
         R.ob("C20-d", "undecodable input becomes a Decode error", len(de) == 1 and any(n.get("k") == "MethodCall" and n["name"] == "map_err" for n in ns["_nodes"]), "decode failure no longer mapped to ModuleLoadError::Decode", ns["file"])
     callers = [n for n in F.all_nodes() if callee_matches(n, ["graph::new_source_with_text"])]
     R.floor("C20-d callers of new_source_with_text", len(callers), 3)
+    pm = F.body("graph::parse_module_source_and_info")
+    pc = [n for n in callers if n["_top"] is pm]
+    R.floor("C20-d decoding sites in parse_module_source_and_info", len(pc), 2)
+    hdr = [n for n in pm["_nodes"] if callee_matches(n, ["source::resolve_media_type_and_charset_from_headers"])]
+    R.ob("C20-d", "media type and charset are taken from the response headers", len(hdr) == 1, "parse_module_source_and_info no longer calls resolve_media_type_and_charset_from_headers", pm["file"])
+    for c in pc:
+        a = peel_value(c["args"][2])
+        ok = False
+        if a.get("res") == "local" and hdr:
+            for d in local_defs(pm, a["lid"]):
+                if d[1] is not None and (d[1] is hdr[0] or is_within(hdr[0], d[1])):
+                    ok = True
+        R.ob("C20-d", "text modules (JS/TS and JSON alike) are decoded with the header charset", ok,
+             "new_source_with_text is called with charset `%s` instead of the charset from the content-type header: a module served in another charset is stored as mojibake (or accepted instead of a decode error)" % expr_text(c["args"][2]), where(c))
     # module `source` fields are only assigned whole, from new_source_with_text / new_unknown
     S = Slicer(F, sources=["graph::new_source_with_text", "ModuleTextSource::new_unknown"])
     for adt in ("graph::JsModule", "graph::JsonModule"):
